@@ -53,7 +53,7 @@ LITS = {
   "sequence_gfa2": ["ACGT*"], "optional_identifier_gfa2": ["e-1"], "oriented_identifier_gfa2": ["seg9-", "a++"], "position_gfa2": ["10$", "012"],
   "alignment_gfa2": ["1,2,3", "12M1I", "5"], "optional_integer": ["-3", "12"], "oriented_identifier_list_gfa2": ["a+ b-", "x+ e1- y+"],
   "identifier_list_gfa2": ["a b c", "s1 e2"], "generic": ["free text", "a:b:c"], "A": [], "f": ["1.5", "-2e3", ".5", "1E-2", "007.50"],
-  "Z": ["hello world", "a:b"], "H": ["AF01", "00FF1A"], "B": ["c,1,-2", "C,255", "I,4294967295", "s,-300,5"],
+  "Z": ["hello world", "a:b"], "H": ["AF01", "00FF1A"], "B": ["c,1,-2", "C,255", "I,4294967295", "s,-300,5", "s,-1,128", "i,-1,32768", "c,-128,127", "S,256,0", "I,65536", "s,-129,0", "i,-32769,1", "C,0"],
   "J": ["{\"a\": 1}", "[1, [2]]", "[]", "{\"k\":[1,2]}"],
 }
 
@@ -68,7 +68,7 @@ def _tags(l):
 
 def h_line_field(ti: int, n: int, c0: int, c1: int, c2: int, vl: int, lit: int) -> bool:
   """
-  pre: 0 <= ti < NT and 0 <= n <= MLEN and 0 <= vl <= 3 and -1 <= lit < 6
+  pre: 0 <= ti < NT and 0 <= n <= MLEN and 0 <= vl <= 3 and -1 <= lit < 12
   pre: lit == -1 or (n == 0 and c0 == 0)
   pre: 0 <= c0 < NA and 0 <= c1 < NA and 0 <= c2 < NA
   pre: (n > 0 or c0 == 0) and (n > 1 or c1 == 0) and (n > 2 or c2 == 0)
@@ -77,7 +77,7 @@ def h_line_field(ti: int, n: int, c0: int, c1: int, c2: int, vl: int, lit: int) 
   """
   vp.enter("lf")
   tmpl, version, dt, numeric = TEMPL[vp.concretize(ti, 0, NT - 1)]
-  li = vp.concretize(lit, -1, 5)
+  li = vp.concretize(lit, -1, 11)
   if li >= 0:
     if li >= len(LITS[dt]): return True
     s = LITS[dt][li]
@@ -123,12 +123,12 @@ DOCS = [
    "L\ta\t+\tb\t-\t1M1D2M\tID:Z:l1\tKC:i:3", "L\tb\t+\ta\t-\t2M1I1M\tID:Z:l1\tKC:i:3", "C\tb\t+\tc\t-\t0\t2M", "P\tp1\ta+,b-\t1M1D2M", "#\tcomment"],
   ["S\t1\t*", "S\t2\tAC", "S\t3\t*\tLN:i:9", "L\t1\t+\t2\t+\t*", "L\t2\t-\t1\t-\t*", "L\t2\t+\t3\t-\t0M", "P\tp\t1+,2+,3-\t*", "P\tq\t2+\t*", "# c1", "#c2"],
   ["S\ta\t*\tja:J:{\"k\": [1, {\"x\": 2}]}\tzz:Z:a b", "S\tb\t*", "C\ta\t-\tb\t+\t12\t*\tjj:J:[1, [2]]", "L\ta\t+\ta\t-\t3M"],
-  ["H\tTS:i:5", "S\tx\tNNNN", "S\ty\t*", "L\tx\t+\ty\t+\t2M1I\tMQ:i:3\tNM:i:1", "P\tc\tx+,y+\t2M1I"],
+  ["H\tTS:i:5", "S\tx\tNNNN\tco:Z:ends with blank ", "# comment with trailing blank ", "S\ty\t*", "L\tx\t+\ty\t+\t2M1I\tMQ:i:3\tNM:i:1", "P\tc\tx+,y+\t2M1I"],
   ["H\tVN:Z:2.0\tTS:i:3", "S\ta\t10\t*", "S\tb\t10\tACGTACGTAC", "S\tc\t10\t*", "E\te1\ta+\tb-\t6\t10$\t6\t10$\t1M1D2M1I", "E\t*\tb-\tc+\t0\t3\t0\t3\t*",
    "E\te3\ta-\tc-\t2\t5\t3\t6\t1,2\tTS:i:3", "G\tg1\ta+\tc-\t5\t*", "G\t*\ta-\tb+\t10\t2", "F\ta\tread+\t0\t4\t0\t4$\t2M1I1M1D", "O\to1\ta+ b- c+",
    "O\to2\to1- a-", "U\tu1\ta e1 o1 g1", "U\t*\tu1 c", "X\tcustom\tfield\txx:i:1", "#\tc"],
   ["S\t1\t8\t*\tRC:i:5\tba:B:c,-1,1", "S\t2\t8\t*", "E\t10\t1+\t2+\t4\t8$\t0\t4\t1D3M1I", "O\t20\t1+ 10+ 2+", "O\t20\t2+", "U\t30\t20", "U\t30\t10\txx:Z:t"],
-  ["S\ta\t5\tAAAAA\tjj:J:[\"x\", 1.5]", "S\tb\t5\t*", "F\tb\tr-\t1\t3\t0\t2\t*\tTS:i:2", "Y\tq"],
+  ["S\ta\t5\tAAAAA\tjj:J:[\"x\", 1.5]", "S\tb\t5\t*", "F\tb\tr-\t1\t3\t0\t2\t*\tTS:i:2", "Y\tq", "Z\tfield ending in blank "],
   ["H\taa:i:1", "H\taa:i:2", "H\taa:i:3\tbb:f:0.5", "S\ts\t1\tA"],
 ]
 ND = len(DOCS)
